@@ -277,8 +277,13 @@ def order_preserving(e, has_pool):
     if isinstance(e, ast.Call) and call_name(e) in ("np.concatenate", "numpy.concatenate") and len(e.args) == 1 and not e.keywords:
         ok, why = Mp(e.args[0])
         return (ok and why != "x"), ("concatenate of per-chunk results" if ok and why != "x" else f"concatenate over {why}")
-    if isinstance(e, ast.Call) and isinstance(e.func, ast.Attribute) and e.func.attr == "flatten" and not e.args:
-        inner = e.func.value
+    flat_ = None
+    if isinstance(e, ast.Call) and isinstance(e.func, ast.Attribute) and e.func.attr in ("flatten", "ravel") and not e.args and not (isinstance(e.func.value, ast.Name) and e.func.value.id in ("np", "numpy")):
+        flat_ = e.func.value
+    elif isinstance(e, ast.Call) and call_name(e) in ("np.ravel", "numpy.ravel") and len(e.args) == 1 and not e.keywords:
+        flat_ = e.args[0]
+    if flat_ is not None:
+        inner = flat_
         if isinstance(inner, ast.Call) and call_name(inner) in ("np.array", "numpy.array") and len(inner.args) == 1:
             ok, why = Mp(inner.args[0])
             return (ok and why == "x"), ("array of per-point results" if ok and why == "x" else f"per-point array over {why}")
